@@ -96,6 +96,9 @@ type exxIn struct {
 	BR          exBR     `json:"br"`
 	World       exxWorld `json:"world"`
 	K           int      `json:"k"` // 0: undisturbed; k>0: the k-th API call (reads included) fails
+	// an outage: every List call of this reconcile fails ("list"), or every List of one kind ("list ReplicaSetList",
+	// "list PodList") - an API server timing out on lists for a while
+	Outage string `json:"outage,omitempty"`
 }
 
 // ---- names, references ----
@@ -561,8 +564,14 @@ func exxRunF(in *exxIn, failN int) (J, faultRun) {
 	cli := NewLogClient(inner)
 	rec := batchrelease.VerifNewReconciler(cli, theScheme)
 	cli.Calls, cli.FailCallN, cli.FaultHit = 0, failN, ""
+	if in.Outage != "" {
+		cli.FailAllPrefix = in.Outage + " " // "list": every List; "list ReplicaSetList" / "list PodList": the Lists of one kind
+		if in.Outage != "list" {
+			cli.FailAllPrefix = in.Outage
+		}
+	}
 	res, err := rec.Reconcile(context.TODO(), ctrl.Request{NamespacedName: types.NamespacedName{Namespace: "ns", Name: "br"}})
-	cli.FailCallN = 0
+	cli.FailCallN, cli.FailAllPrefix = 0, ""
 	fr := faultRun{Err: err != nil, Requeue: res.RequeueAfter > 0 || res.Requeue, Calls: cli.Calls, Hit: cli.FaultHit, Writes: writesOf(cli)}
 	out := J{"requeue": res.RequeueAfter > 0 || res.Requeue, "err": err != nil}
 	world, cands := exxAbstractWorld(in, base, built)
@@ -587,7 +596,7 @@ func exxRunF(in *exxIn, failN int) (J, faultRun) {
 		st.StableRevision = exxRevOut(in.World.Shape, bk, st.StableRevision, cands)
 		out["br"] = J{"hasFinalizer": hasFin, "status": st}
 	}
-	if failN > 0 {
+	if failN > 0 || in.Outage != "" {
 		out["hit"] = cli.FaultHit
 	}
 	return out, fr
@@ -926,6 +935,25 @@ func exxGenBG(c *Ctx) *exxIn {
 			world.WL.Status.Replicas = R + u // the surge pods
 		}
 	}
+	if world.WL != nil && c.Rng.Intn(4) == 0 {
+		// focused: the batch is being upgraded / verified, its new pods exist but are NOT ready, the old (blue) pods all are:
+		// every counter of the workload's status except "updated AND ready" says "enough"
+		br.Status.Phase, br.Status.BatchState = "Progressing", pickS(c, "Verifying", "Verifying", "Upgrading")
+		t := exxTarget(&br, R)
+		u, r = t, c.Rng.Intn(t+1)/2
+		if r >= t {
+			r = 0
+		}
+		br.Status.Updated, br.Status.UpdatedReady = u, r
+		o = exxGenObs(c, R, u, r)
+		o.ObservedGeneration = o.Generation
+		world.WL.Status.Updated = u
+		world.WL.Status.Replicas = R + u
+		world.WL.Status.Ready, world.WL.Status.Available = R+r, R+r
+		if kind == "cloneSet" {
+			world.WL.Status.UpdatedReady = r
+		}
+	}
 	if kind == "deployment" {
 		o.UpdateRevision, o.StableRevision = "", ""
 		if world.WL != nil && !world.WL.StableLabel && br.Status.StableRevision == bgStableHash {
@@ -1124,6 +1152,22 @@ func runExecutorX(c *Ctx) {
 			c.Begin("reconcile", in)
 			impl := guard(func() interface{} { o, _ := exxRunF(in, 0); return o })
 			c.Emit("reconcile", in, impl)
+			if in.K == 0 && in.Outage == "" && (in.World.Shape == "bg" || c.Rng.Intn(4) == 0) {
+				// the same reconcile during a List outage (blue-green planes read their pods' readiness from Lists only)
+				f := *in
+				f.Outage = pickS(c, "list", "list ReplicaSetList", "list ReplicaSetList", "list PodList")
+				// an outage lasts: the reconciles that follow run under it too
+				for g, k := &f, 0; g != nil && k < 3; k++ {
+					c.Begin("reconcile", g)
+					fimpl := guard(func() interface{} { o, _ := exxRunF(g, g.K); return o })
+					c.Emit("reconcile", g, fimpl)
+					n := exxSuccessor(c, g, fimpl)
+					if n != nil {
+						n.Outage = f.Outage
+					}
+					g = n
+				}
+			}
 			if (i+step)%6 == 0 {
 				// the same reconcile with one API call failing: every index (thorough, sampled) or a few of them
 				exxFaults(c, in, c.Thorough() && i%25 == 0)
